@@ -10,7 +10,40 @@ RULE = ("random scenes over all 28 blend modes, coverage and clip coverage 0..25
 KNOWN = "blend mode Color (sw-composite blend::Color, dependency): blend of premultiplied inputs can exceed alpha; trips pack_argb32's debug assertion"
 
 
+def conversions(ctx):
+    """Color / from_unpremultiplied_argb produce premultiplied colours: alpha over all boundary values x channel grid"""
+    from .. import build
+    rng = ctx.rng
+    lines, cid = [], 0
+    alphas = [0, 1, 2, 3, 127, 128, 254, 255] + ([rng.randrange(256) for _ in range(8)] if ctx.tier == "quick" else list(range(256)))
+    chans = [0, 1, 127, 128, 254, 255] + [rng.randrange(256) for _ in range(6)]
+    for a in alphas:
+        for r in chans:
+            lines.append("fmt %d 0 0 0 0 0 %d %d %d %d" % (cid, a, r, rng.choice(chans), rng.choice(chans))); cid += 1
+    impl, _ = build.run_sharded(build.RQV, lines)
+    model, _ = build.run_sharded(build.DRIVER, lines)
+    ctx.cov["colour_conversions_checked"] = len(lines)
+    for l, i, m in zip(lines, impl, model):
+        t = i.split()
+        if t[1] != "ok":
+            ctx.violation("conv-%s" % t[0], l, "from_unpremultiplied_argb / From<Color> panicked or disagree with each other"); return
+        f = [int(x) for x in t[t.index("F") + 1:t.index("F") + 5]]
+        if f[1] > f[0] or f[2] > f[0] or f[3] > f[0] or f[0] != int(l.split()[7]):
+            ctx.violation("conv-%s" % t[0], l, "from_unpremultiplied_argb(%s) = (a,r,g,b) %s is not premultiplied" % (" ".join(l.split()[7:11]), f)); return
+        if core_canon(i) != core_canon(m):
+            ctx.violation("convcorr-%s" % t[0], l + "\n# impl: " + i + "\n# model: " + m,
+                          "colour conversion differs from the model (muldiv255) though still premultiplied", found_input=False); return
+
+
+def core_canon(x):
+    from .. import core
+    return core.canon(x)
+
+
 def post(ctx, sr):
+    conversions(ctx)
+    if ctx.violations:
+        return
     worst = None
     for i in range(len(sr.cases)):
         bad = sc.premul_violations(sr, i)
